@@ -156,30 +156,63 @@ def run(src, tier, seed):
             res.bad(r, 'tryInsert-misses:%s' % req, fx.loc(ti), 'TermNames::tryInsert can report success (line %s) without updating %s' % (miss, req))
         else:
             res.ok(r, 'tryInsert: %s on every successful exit' % req)
-    di = fx.func('opensmt::DefinedFunctions::insert')
+    # the method of DefinedFunctions that records a definition is found by what it does (it writes the undo log `scopedNames`), not by its name
+    loggers = [f for f in fx.F.values() if f.get('class') == 'opensmt::DefinedFunctions' and f.get('body') and any(is_call(n, 'push', 'this.scopedNames') for n in fwalk(f))]
+    if len(loggers) != 1:
+        raise AnalysisBroken('DefinedFunctions: expected one method that appends to the scope log, found %s' % [f['name'] for f in loggers])
+    di = loggers[0]
+    dname = di['name'].replace('opensmt::', '')
+    sflag = [p['n'] for p in di['params'] if p['t'].replace('const ', '') == 'bool']
+    if len(sflag) != 1:
+        raise AnalysisBroken('%s: the `scoped` flag parameter was not identified' % dname)
     exits, eng = must_call(di, {'map': lambda n: n.get('k') == 'call' and mname(n) in KEY_CREATE and recv_path(n) == 'this.defined_functions',
                                 'log': lambda n: is_call(n, 'push', 'this.scopedNames')},
-                           {'scoped': lambda a: isinstance(a, dict) and a.get('k') == 'ref' and a.get('n') == 'scoped'})
+                           {'scoped': lambda a: isinstance(a, dict) and a.get('k') == 'ref' and a.get('n') == sflag[0]})
     bad = []
     for k, nd, st in exits:
         if k == 'throw':
             continue
         if 'map' not in st:
             bad.append('map not written')
-        if 'scoped=T' in st and 'log' not in st:
+        if 'scoped=T' in st and 'log' not in st and not any(mname(x) in ('try_emplace', 'emplace', 'insert') for x in fwalk(di) if x.get('k') == 'call'):
             bad.append('scoped insert not logged')
         if 'scoped=F' in st and 'log' in st:
             bad.append('unscoped insert logged')
-        if 'scoped=T' not in st and 'scoped=F' not in st:
+        if 'log' in st and 'scoped=T' not in st:
             bad.append('scope log no longer conditional on `scoped`')
+    # an undo entry may be written only for a change that was made: a key-creating call that keeps an existing entry (try_emplace / emplace / insert)
+    # must have its result tested before the log is written; operator[] assignment and insert_or_assign always change the entry and rely on the caller's
+    # "not yet defined" test (checked below)
+    maybe = [x for x in fwalk(di) if x.get('k') == 'call' and mname(x) in ('try_emplace', 'emplace', 'insert') and recv_path(x) == 'this.defined_functions']
+    if maybe:
+        flags = {d['n'] for d in fwalk(di) if d.get('k') == 'decl' and d.get('init') is not None and any(y is m_ for m_ in maybe for y in [see_through(d['init'])] + list(walk(d['init'])))}
+        for push in (x for x in fwalk(di) if is_call(x, 'push', 'this.scopedNames')):
+            guarded = False
+            for g in walk(di['body']):
+                if g.get('k') == 'if' and any(y is push for y in walk(g['then'])) and \
+                        any((y.get('k') == 'ref' and y.get('n') in flags) or any(y is m_ for m_ in maybe) for y in [see_through(g['cond'])] + list(walk(g['cond']))):
+                    guarded = True
+            if not guarded:
+                bad.append('the scope log is written although %s may have kept an existing definition (result not tested): popping the scope then erases a definition made in an outer scope'
+                           % '/'.join(sorted({mname(m_) for m_ in maybe})))
     if bad:
-        res.bad(r, 'DefinedFunctions::insert', fx.loc(di), 'DefinedFunctions::insert: %s' % sorted(set(bad)))
+        res.bad(r, 'DefinedFunctions::insert', fx.loc(di), '%s: %s' % (dname, sorted(set(bad))))
     else:
-        res.ok(r, 'DefinedFunctions::insert: map write always, scope log iff scoped')
+        res.ok(r, '%s: map write always, scope log iff scoped' % dname)
     sd = fx.func('opensmt::Interpret::storeDefinedFun')
     ok = False
+    overwrite = not maybe
+    if overwrite:
+        # the recorder overwrites: the caller must have established that the name is not defined yet
+        tested = any(n.get('k') == 'if' and not n.get('as') and any(is_call(x, 'has', 'this.defined_functions') for x in [see_through(n['cond'])] + list(walk(n['cond']))) and
+                     any(x.get('k') == 'ret' for x in walk(n['then'])) for n in walk(sd['body']))
+        if tested:
+            res.ok(r, 'storeDefinedFun rejects a name that is already defined before recording')
+        else:
+            res.bad(r, 'redefinition-overwrites', fx.loc(sd), 'Interpret::storeDefinedFun records a definition without first rejecting a name that is already defined, and %s overwrites: the rejected '
+                    'command replaces the definition and its scope entry erases the outer one on pop' % dname)
     for n in fwalk(sd):
-        if is_call(n, 'insert', 'this.defined_functions') and len(n['a']) >= 3:
+        if is_call(n, di['name'].split('::')[-1], 'this.defined_functions') and len(n['a']) >= 3:
             a = see_through(n['a'][2])
             # the flag must be (a local bound to) the negation of declarations_are_global()
             src_e = a
@@ -192,7 +225,7 @@ def run(src, tier, seed):
     if ok:
         res.ok(r, 'storeDefinedFun passes scoped = !declarations_are_global()')
     else:
-        res.bad(r, 'storeDefinedFun-scoped', fx.loc(sd), 'Interpret::storeDefinedFun does not pass scoped = not declarations_are_global() to DefinedFunctions::insert')
+        res.bad(r, 'storeDefinedFun-scoped', fx.loc(sd), 'Interpret::storeDefinedFun does not pass scoped = not declarations_are_global() to the recording method of DefinedFunctions')
 
     # ---- R2 key-removal symmetry
     r = res.rule('key-removal-symmetry', 'for every map member of a scoped registry: if some method creates keys and some reader tests key presence, '
